@@ -58,13 +58,13 @@ CLAIMS = {
          "Theorems C18_*: fresh, emptied and default-constructed vectors have size 0, data_end()=data_begin(), no uninitialised slot is consulted (model reads of unwritten slots would yield -1 offsets and disagree), clear keeps them empty. "
          "Tie: family of default-constructed / zero-capacity / never-filled / emptied-three-ways vectors under alternating junk fills, followed by reserve+emplace_back.",
          "5 C18"),
- "C13": ("proof (laws of == for every list and arbitrary memory; field equality = content equality) + correspondence under alternating junk with a content oracle",
-         "Theorems C13_*: vector and reference == are reflexive and symmetric for every parameter list and ARBITRARY memory contents (hence every junk fill, capacity, allocator); != is the negation; a field compared object-wise is equal iff it holds the same objects (number included). "
-         "PARTIAL: that the byte-wise compared runs / buffers decide exactly content equality (no padding inside a run, at most one span per run) is not yet a theorem; it is decided by the tie: related vectors (equal / one object differs / strict prefix / longer / empty / different fixed sizes) built under different junk fills, capacities, histories and allocators, every operator on every pair of vectors and of elements, against the model and against a content oracle; the model's run tables and padding-free flag are compared with the library's constexpr tables for every instantiated list.",
+ "C13": ("proof (operator== of references = equality of the stored tuples, for every list and arbitrary memory, via the structure theorem of the run tables) + correspondence under alternating junk with a content oracle",
+         "Theorem C13_reference_equality_is_content_equality: for every well-formed parameter list, two elements stored in any memories at any aligned positions (any junk, any fixed sizes) compare equal with the library's == (memcmp-able runs byte-wise, other fields object-wise) EXACTLY when they hold the same tuple - proved from RunsThm.runs_structure/runs_tight (a compared run has no padding and at most one span, at its end) and run_bytes_spec (its bytes are the concatenation of its fields). Lifted to references into vectors and to vector == on the element-wise path under Rep; reflexive, symmetric, != negation for arbitrary memory. "
+         "PARTIAL: the whole-buffer fast path (all types memcmp-able, padding-free, equal fixed sizes) is modelled and tied but 'buffers equal iff lists equal' is not proved (Rep does not state gap-free packing). The proof attempt exposed a genuine defect (vectors of zero-byte elements equal whatever their size), fixed. Tie: related vectors under different junk fills / capacities / histories / allocators, all operators on all pairs, content oracle, static RUNS/PADFREE lines, static sweep.",
          "5 C13"),
- "C14": ("proof (strict-partial-order laws of element <, irreflexivity of vector <, derived operators) + refutation witness (known finding) + correspondence with a law-checking oracle",
-         "Theorems C14_*: for every parameter list and arbitrary memory the element-level < is irreflexive, asymmetric and transitive; vector < is irreflexive; > <= >= are derived as stated; field order is a strict weak order. C14_vector_less_transitive_refuted: vm_compute witness that vector < is not transitive (element < is a product order over the compared runs) = known finding less-product-order. "
-         "Tie: all six operators on pairs of vectors/elements over a 2-3 value domain; oracle checks the laws on the implementation's own results (irreflexive, asymmetric, transitive, consistent with ==, content-only, vector < = lexicographical_compare under the observed element <).",
+ "C14": ("proof (element < is a strict partial order that is a function of the two tuples only; == excludes <; derived operators) + refutation witness (known finding) + correspondence with a law-checking oracle",
+         "Theorems C14_*: for every well-formed list the element-level < equals a function of the two stored tuples (C14_reference_less_depends_on_content_only: independent of memory, position, junk, capacity, fixed sizes), is irreflexive, asymmetric and transitive for arbitrary memory, a == b implies neither a < b nor b < a; vector < is irreflexive; > <= >= are derived as stated; field order is a strict weak order. C14_vector_less_transitive_refuted: vm_compute witness that vector < is not transitive (element < is a product order over the compared runs) = known finding less-product-order. "
+         "PARTIAL: vector-level content dependence on the fast path and 'vector < is lexicographical_compare under element <' are decided by the tie: all six operators on pairs of vectors/elements over a 2-3 value domain; the oracle checks the laws on the implementation's own results (irreflexive, asymmetric, transitive, consistent with ==, content-only, vector < = lexicographical_compare under the observed element <).",
          "5 C14"),
  "C11": ("proof (structure of the assign/swap run tables for every list; iterators = index arithmetic) + correspondence on reference/iterator/algorithm histories with a content oracle",
          "Theorems C11_*: for every parameter list the tables driving reference assignment and swap cover every field, MANUAL exactly where the value type is not trivially assignable/swappable and otherwise inside a run of consecutive trivial fields (RunsThm.runs_structure, induction over the list with an array invariant) - so no field is skipped and no non-trivial object is moved byte-wise; iterator expressions equal index arithmetic. "
